@@ -3,6 +3,7 @@ package props
 import (
 	"encoding/base64"
 	"fmt"
+	"net/http"
 	"os"
 	"sort"
 	"strconv"
@@ -223,6 +224,9 @@ func c09Weird() []deviation {
 	var m []deviation
 	for _, s := range slots {
 		for _, v := range vals {
+			if strings.HasPrefix(s, "h:") && strings.ContainsAny(v, "\x00\r\n") {
+				continue // net/http does not deliver such a header value to a handler
+			}
 			m = append(m, deviation{s, v, "weird:" + clip(strconv.Quote(v), 24)})
 		}
 	}
@@ -279,6 +283,15 @@ func c09Menu() []deviation {
 	formNoKey := "--verifboundary\r\nContent-Disposition: form-data; name=\"file\"; filename=\"f\"\r\n\r\nx\r\n--verifboundary--\r\n"
 	formTwo, _ := formBody("formkey", []byte("x"), nil)
 	formTwoS := strings.Replace(string(formTwo), "--verifboundary--", "--verifboundary\r\nContent-Disposition: form-data; name=\"file\"; filename=\"g\"\r\n\r\ny\r\n--verifboundary--", 1)
+	// form fields that become metadata: a name with a NUL byte (RFC 2231 encoded parameter), values with control characters
+	formField := func(disp, val string) string {
+		return "--verifboundary\r\nContent-Disposition: form-data; name=\"key\"\r\n\r\nformkey\r\n--verifboundary\r\nContent-Disposition: form-data; " + disp + "\r\n\r\n" + val +
+			"\r\n--verifboundary\r\nContent-Disposition: form-data; name=\"file\"; filename=\"f\"\r\n\r\nform-body\r\n--verifboundary--\r\n"
+	}
+	formNulName := formField("name*=utf-8''X-Amz-Meta-a%00b", "v")
+	formCtlValue := formField("name=\"X-Amz-Meta-Note\"", "a\x01b")
+	formNLValue := formField("name=\"Content-Disposition\"", "x\r\nX-Injected: 1")
+	formCtlName := formField("name*=utf-8''X-Amz-Meta-a%0d%0aX-Injected", "v")
 	var many strings.Builder
 	many.WriteString("<CompleteMultipartUpload>")
 	for i := 1; i <= 10000; i++ {
@@ -297,7 +310,7 @@ func c09Menu() []deviation {
 		"<Delete><Quiet>maybe</Quiet></Delete>", "<Delete></Delete>",
 		"<VersioningConfiguration><Status>Suspended</Status></VersioningConfiguration>", "<VersioningConfiguration><Status>Sometimes</Status></VersioningConfiguration>",
 		"<VersioningConfiguration><Status>Enabled</Status><MfaDelete>Enabled</MfaDelete></VersioningConfiguration>", "<VersioningConfiguration/>",
-		formNoKey, formTwoS, strings.Repeat("\xff\x00garbage", 500),
+		formNoKey, formTwoS, formNulName, formCtlValue, formNLValue, formCtlName, strings.Repeat("\xff\x00garbage", 500),
 		// aws-chunked streams that end early: inside a chunk, inside a header, before the terminator
 		"10;chunk-signature="+strings.Repeat("0", 64)+"\r\nhello",
 		"5;chunk-signature="+strings.Repeat("0", 64)+"\r\nhello",
@@ -611,6 +624,10 @@ func runC09(c *engine.Ctx) {
 			report(sig("C09", class, "panic@"+fr), "handler panicked: "+firstLine(resp.Panic))
 			return
 		}
+		if hn, hv, bad := badHeader(resp.Header); bad {
+			report(sig("C09", class, jb.base.route, "malformed-response-header"), fmt.Sprintf("response header %q: %q cannot be sent over HTTP", hn, hv))
+			return
+		}
 		code := resp.ErrCode()
 		omu.Lock()
 		outcomes[fmt.Sprintf("%s|%d|%s", jb.base.route, resp.Status, code)]++
@@ -719,9 +736,25 @@ func c09Canary(w *drv.World, pl c09Plan, untouchedBefore string) (string, string
 		}
 		lp := drv.ParseList(lr)
 		found := false
-		for _, e := range lp.Entries {
+		for i, e := range lp.Entries {
 			if e.Key == "canary" {
 				found = true
+			}
+			// whatever the request stored: a key the bucket lists is served without a server
+			// error and with headers that can go over the wire
+			if i < 12 && e.Key != "canary" && !strings.ContainsAny(e.Key, "?#%") && !strings.HasSuffix(e.Key, "/") {
+				for _, m := range []string{"GET", "HEAD"} {
+					or, f := do(drv.Req{Method: m, Path: pfx(b) + "/" + e.Key, Host: host})
+					if f != "" {
+						return f, m + " of listed key " + strconv.Quote(e.Key)
+					}
+					if or.Status >= 500 {
+						return "listed-key-server-error", fmt.Sprintf("%s of listed key %q in %s answers %s", m, e.Key, b, or.Short())
+					}
+					if hn, hv, bad := badHeader(or.Header); bad {
+						return "listed-key-malformed-header", fmt.Sprintf("%s of listed key %q in %s: response header %q: %q cannot be sent over HTTP", m, e.Key, b, hn, hv)
+					}
+				}
 			}
 		}
 		if pl.cfg.FailOnUnimplPage && pl.cfg.Kind != drv.Mem && lp.Status == 501 && lp.Code == "NotImplemented" {
@@ -760,4 +793,23 @@ func sanitize(s string, n int) string {
 		}
 	}
 	return b.String()
+}
+
+// badHeader reports a response header whose name or value net/http could not put on the wire.
+func badHeader(h http.Header) (string, string, bool) {
+	for k, vs := range h {
+		for _, c := range []byte(k) {
+			if c <= ' ' || c >= 0x7f || c == ':' {
+				return k, strings.Join(vs, ","), true
+			}
+		}
+		for _, v := range vs {
+			for _, c := range []byte(v) {
+				if (c < ' ' && c != '\t') || c == 0x7f {
+					return k, v, true
+				}
+			}
+		}
+	}
+	return "", "", false
 }
